@@ -306,7 +306,17 @@ def run(ctx, deep=False):
     orc.close()
     # ---- 4. correspondences
     if ctx.driver_ok():
-        ctx.correspond("corr/c07:render(model text == compiler text, 5 dialects)", cases, impl_out, ctx.driver(reqs))
+        model_out = ctx.driver(reqs)
+        impl_out, ml_fail = L.reconcile_render(ctx, cases, impl_out, model_out, "C07")
+        ctx.correspond("corr/c07:render(model text == compiler text, 5 dialects)", cases, impl_out, model_out)
+        for f in ml_fail[:20]:
+            pres = L.Neutral("ACD")
+            try:
+                L.to_sa(f["case"]["u"], pres)
+            except Exception:  # noqa
+                pass
+            if not pres.hits:
+                ctx.violation("c07-model-level-misgrouping-" + f["case"]["dialect"], f["case"], f["detail"])
         # the Lean three-valued IN against real SQLite
         ecases, ereqs, eimpl = [], [], []
         for pool, xs in (([None, 1, 2], [None, 0, 1, 2]), ([None, "a", "b"], [None, "a", "b", ""])):
@@ -337,6 +347,8 @@ def replay(ctx, obj):
     from harness.props import c01
 
     c = obj["case"]
+    if c.get("mode") == "model-level":
+        return c01.replay_model_level(ctx, obj)
     if c.get("mode") == "tree":
         orc = c01.Oracle()
         try:
